@@ -1,6 +1,10 @@
 package complete
 
 import (
+	"io/fs"
+	"os"
+	"strings"
+	"time"
 	"unicode/utf8"
 
 	"src.elv.sh/pkg/eval"
@@ -122,4 +126,106 @@ func verifInnermostPrimary(n parse.Node, from, to int) *parse.Primary {
 		}
 	}
 	return best
+}
+
+// A directory for the file-name generator: in the engine os.ReadDir is served
+// by VerifReadDir from this table; natively the same names exist as real
+// files in a temporary working directory.
+type verifEntry struct{ name string }
+
+func (e verifEntry) Name() string               { return e.name }
+func (e verifEntry) IsDir() bool                { return false }
+func (e verifEntry) Type() fs.FileMode          { return 0 }
+func (e verifEntry) Info() (fs.FileInfo, error) { return verifInfo{e}, nil }
+
+type verifInfo struct{ e verifEntry }
+
+func (i verifInfo) Name() string       { return i.e.name }
+func (i verifInfo) Size() int64        { return 0 }
+func (i verifInfo) Mode() fs.FileMode  { return 0o644 }
+func (i verifInfo) ModTime() time.Time { return time.Time{} }
+func (i verifInfo) IsDir() bool        { return false }
+func (i verifInfo) Sys() any           { return nil }
+
+var verifDirTable []verifEntry
+
+func VerifReadDir(dir string) ([]os.DirEntry, error) {
+	if dir != "." {
+		return nil, os.ErrNotExist
+	}
+	var es []os.DirEntry
+	for _, e := range verifDirTable {
+		es = append(es, e)
+	}
+	return es, nil
+}
+
+func verifFileNameOK(s string) bool {
+	ok := s != "." && s != ".." && len(s) > 0
+	for i := 0; i < len(s); i++ {
+		ok = vrt.And(ok, vrt.And(s[i] != '/', s[i] != 0))
+	}
+	return ok
+}
+
+// VerifC43Files: the working directory holds two files with symbolic names of
+// m bytes; the buffer is `ls ` followed by a single-quoted (style 1) or bare
+// (style 0, plain characters only) word of n symbolic bytes. Completion offers
+// exactly the entries that start with the typed prefix (dot files exactly when
+// the prefix starts with a dot), and each offered item completes to its entry.
+func VerifC43Files(style, n, m int) {
+	e1, e2 := vrt.Str("e1", m), vrt.Str("e2", m)
+	vrt.Assume(vrt.And(verifFileNameOK(e1), verifFileNameOK(e2)))
+	vrt.Assume(e1 != e2)
+	vrt.Assume(utf8.ValidString(e1) && utf8.ValidString(e2))
+	seed := vrt.Str("seed", n)
+	vrt.Assume(utf8.ValidString(seed))
+	for i := 0; i < len(seed); i++ {
+		c := seed[i]
+		if style == 0 {
+			vrt.Assume(vrt.Or(vrt.Or(vrt.And('a' <= c, c <= 'z'), vrt.And('0' <= c, c <= '9')), vrt.Or(c == '.', vrt.Or(c == '-', c == '_'))))
+		} else {
+			vrt.Assume(vrt.And(c != '\'', vrt.And(c != '/', c != 0)))
+		}
+	}
+	root := vrt.TempDir()
+	vrt.WriteFile(root+"/"+e1, "")
+	vrt.WriteFile(root+"/"+e2, "")
+	vrt.Chdir(root)
+	verifDirTable = []verifEntry{{e1}, {e2}}
+	code := "ls " + []string{"", "'"}[style] + seed
+	ev := eval.NewEvaler()
+	res, err := Complete(CodeBuffer{Content: code, Dot: len(code)}, ev, Config{})
+	vrt.RemoveAll(root)
+	vrt.Reach("completion ran")
+	want := 0
+	for _, e := range []string{e1, e2} {
+		if strings.HasPrefix(e, seed) && strings.HasPrefix(e, ".") == strings.HasPrefix(seed, ".") {
+			want++
+		}
+	}
+	if want == 0 {
+		vrt.Assert(err != nil || len(res.Items) == 0, "nothing is offered when no entry starts with the typed prefix")
+		return
+	}
+	if err != nil {
+		vrt.Fail("completion failed although entries match: " + err.Error())
+		return
+	}
+	vrt.Assert(len(res.Items) == want, "exactly the directory entries that start with the typed prefix are offered")
+	if err != nil {
+		return
+	}
+	from, to := res.Replace.From, res.Replace.To
+	vrt.Assert(0 <= from && from <= to && to <= len(code), "the replaced range lies within the buffer")
+	for _, item := range res.Items {
+		newCode := code[:from] + item.ToInsert + code[to:]
+		tree, _ := parse.Parse(parse.Source{Name: "[v]", Code: newCode}, parse.Config{})
+		word := verifFindCompound(tree.Root, from, from+len(strings.TrimSuffix(item.ToInsert, " ")))
+		vrt.Assert(word != nil, "the insertion text is one word followed by a space")
+		if word != nil {
+			val, ok := ev.PurelyEvalCompound(word)
+			vrt.Assert(ok && (val == e1 || val == e2) && strings.HasPrefix(val, seed), "the completed word evaluates to an entry that starts with the typed prefix")
+		}
+	}
 }
